@@ -203,3 +203,15 @@ def r09_6(ctx):
 def r09_7(ctx):
     from .c04 import check_evaluator_slots
     check_evaluator_slots(ctx)
+
+
+@rule("R09.8", min_instances=30, desc="parameter values of stages created from one template are independent (clone copies the value table; shared with C12)")
+def r09_8(ctx):
+    from .c12 import r12_2
+    r12_2(ctx)
+
+
+@rule("R09.9", min_instances=4, desc="grid coupling constraints are kept for a horizon given by a parameter (only rows that are parametric as a whole are skipped; shared with C06)")
+def r09_9(ctx):
+    from .c06 import check_coupling
+    check_coupling(ctx, only_localisable=True)
